@@ -644,6 +644,56 @@ Proof.
   - destruct (fork_parent_keeps (fx K)); (eapply inv3_tables; [..|exact H]; reflexivity).
 Qed.
 
+Lemma slot_cnt_some x c n : slot_cnt x (Some (c, n)) = if Nat.eqb x c then 1 else 0.
+Proof. unfold slot_cnt. cbn [slot_cids]. apply cnt_one. Qed.
+Lemma slot_cnt_none x : slot_cnt x None = 0.
+Proof. reflexivity. Qed.
+
+Lemma inv3_poll_enqueue t c : mem c (pollset t) = true -> Inv3 t ->
+  Inv3 (enqueue (with_pool t (fdmap t) (rm c (pollset t)) (queue t) (workers t)) c).
+Proof.
+  intros M H A x. unfold held. simp_state. specialize (H A x). unfold held in H. rewrite cnt_rm, cnt_app, cnt_one.
+  destruct (Nat.eqb x c) eqn:E; [|lia]. apply Nat.eqb_eq in E. subst. apply cnt_pos_mem in M.
+  destruct (mem c (fdmap t)); lia.
+Qed.
+Lemma inv3_poll_drop t c : mem c (pollset t) = true -> Inv3 t ->
+  Inv3 (drop c (with_pool t (fdmap t) (rm c (pollset t)) (queue t) (workers t))).
+Proof.
+  intros M H. rewrite drop_eq. simp_state. apply cnt_pos_mem in M.
+  destruct (mem c (fdmap t)) eqn:Mf; intros A x; unfold held; simp_state; specialize (H A x); unfold held in H;
+  rewrite ?mem_rm, cnt_rm; destruct (Nat.eqb x c) eqn:E; cbn [negb andb]; try lia;
+  apply Nat.eqb_eq in E; subst; rewrite ?Mf in H; lia.
+Qed.
+Lemma inv3_take t w c rest : nth_error (workers t) w = Some None -> queue t = c :: rest -> Inv3 t ->
+  Inv3 (with_pool t (fdmap t) (pollset t) rest (set_nth w (Some (c, batch K)) (workers t))).
+Proof.
+  intros Hw Hq H A x. unfold held. simp_state. specialize (H A x). unfold held in H. rewrite Hq, cnt_cons in H.
+  pose proof (held_set_nth x _ _ _ (Some (c, batch K)) Hw) as G. rewrite slot_cnt_none, slot_cnt_some in G. lia.
+Qed.
+Lemma inv3_release_queue t w c n : nth_error (workers t) w = Some (Some (c, n)) -> Inv3 t -> Inv3 (enqueue (set_worker t w None) c).
+Proof.
+  intros Hw H A x. unfold held. simp_state. specialize (H A x). unfold held in H. rewrite cnt_app, cnt_one.
+  pose proof (held_set_nth x _ _ _ None Hw) as G. rewrite slot_cnt_none, slot_cnt_some in G. lia.
+Qed.
+Lemma inv3_release_poll t w c n : nth_error (workers t) w = Some (Some (c, n)) -> Inv3 t -> Inv3 (add_inactive (set_worker t w None) c).
+Proof.
+  intros Hw H A x. unfold held. simp_state. specialize (H A x). unfold held in H. rewrite cnt_app, cnt_one.
+  pose proof (held_set_nth x _ _ _ None Hw) as G. rewrite slot_cnt_none, slot_cnt_some in G. lia.
+Qed.
+Lemma inv3_release_drop t w c n : nth_error (workers t) w = Some (Some (c, n)) -> Inv3 t -> Inv3 (drop c (set_worker t w None)).
+Proof.
+  intros Hw H. rewrite drop_eq. simp_state.
+  destruct (mem c (fdmap t)) eqn:Mf; intros A x; unfold held; simp_state; specialize (H A x); unfold held in H;
+  pose proof (held_set_nth x _ _ _ None Hw) as G; rewrite slot_cnt_none, slot_cnt_some in G;
+  rewrite ?mem_rm; destruct (Nat.eqb x c) eqn:E; cbn [negb andb]; try lia;
+  apply Nat.eqb_eq in E; subst; rewrite ?Mf in H; lia.
+Qed.
+Lemma inv3_keep t w c n m : nth_error (workers t) w = Some (Some (c, n)) -> Inv3 t -> Inv3 (set_worker t w (Some (c, m))).
+Proof.
+  intros Hw H A x. unfold held. simp_state. specialize (H A x). unfold held in H.
+  pose proof (held_set_nth x _ _ _ (Some (c, m)) Hw) as G. rewrite !slot_cnt_some in G. lia.
+Qed.
+
 Lemma inv3_step s e s' : Inv2 s -> Inv3 s -> step e s = Some s' -> Inv3 s'.
 Proof.
   intros I2 I H.
@@ -653,6 +703,16 @@ Proof.
   all: try (apply inv3_finish_own).
   all: try (apply inv3_serve_on; assumption).
   all: try (eapply inv3_tables; [..|first [eassumption | apply inv3_serve_on; eassumption]]; simp_state; reflexivity).
-  Show.
-Abort.
+  all: try match goal with Hb : _ && mem ?c (pollset _) && _ && _ = true |- _ =>
+         let M := fresh "M" in assert (M : mem c (pollset s) = true) by (repeat (apply andb_prop in Hb; destruct Hb as [Hb ?]); assumption);
+         first [apply inv3_poll_enqueue | apply inv3_poll_drop]; assumption end.
+  all: try (eapply inv3_take; eassumption).
+  all: try (eapply inv3_release_queue; [simp_state; eassumption|]).
+  all: try (eapply inv3_release_poll; [simp_state; eassumption|]).
+  all: try (eapply inv3_release_drop; [simp_state; eassumption|]).
+  all: try (eapply inv3_keep; [simp_state; eassumption|]).
+  all: try assumption; try (apply inv3_serve_on; assumption).
+  all: try (eapply inv3_tables; [..|eassumption]; simp_state; reflexivity).
+Qed.
+
 End P.
